@@ -1,5 +1,7 @@
 import BddVerif.Props.C10
 import BddVerif.Lemmas.AlgoEqIterDriver
+import BddVerif.Lemmas.AlgoEq2NFOptThm
+import BddVerif.Lemmas.AlgoEq2NFPanic
 #print axioms B.Props.C10.conjFn_iff
 #print axioms B.Props.C10.disjFn_iff
 #print axioms B.Props.C10.dnfFn_iff
@@ -24,3 +26,12 @@ import BddVerif.Lemmas.AlgoEqIterDriver
 #print axioms B.AlgoEqIt.to_cnf_sem_translated
 #print axioms B.AlgoEqIt.to_cnf_translated_driver
 #print axioms B.AlgoEqIt.to_cnf_ok_or_fuel
+#print axioms B.AlgoEq2NF.Bdd_mk_dnf_eq_model
+#print axioms B.AlgoEq2NF.Bdd_mk_dnf_eq_canon
+#print axioms B.AlgoEq2NF.Bdd_mk_cnf_eq_model
+#print axioms B.AlgoEq2NF.Bdd_mk_cnf_eq_canon
+#print axioms B.AlgoEq2NF.Bdd_mk_cnf_panics
+#print axioms B.AlgoEq2NF.mk_disjunctive_clause_eq_model
+#print axioms B.AlgoEq2NF.Bdd_to_optimized_dnf_eq_model
+#print axioms B.AlgoEq2NF.Bdd_to_optimized_dnf_spec
+#print axioms B.AlgoEq2NF.opt_dnf_roundtrip_translated
